@@ -118,7 +118,10 @@ def main():
             from .observe_ins import INSObserver
 
             obs = INSObserver(em, model, kill_at_eval=cfg.get("kill_at_eval"))
+            obs.trace_stores = bool(cfg.get("trace_stores"))
             obs.install()
+            if cfg.get("ins_signal"):
+                obs.arm_signal(cfg["ins_signal"])
             kwargs = dict(cfg.get("kwargs", {}))
             obs.user_stop = {"criteria": kwargs.get("stopping_criterion", "ratio"),
                              "tolerance": kwargs.get("tolerance", 0.0),
